@@ -22,7 +22,7 @@ RULE = ("unit level: random value lists (None / empty / 1..8 values), cycle flag
         "Random widths, lettered/numbered notes, rests) run by the model's exec_cmds against the events pushed by "
         "lex+exec. compile level: generated sources per clause of the "
         "property (onNote/onCycle for v q t o l with lettered and numbered notes on track 1..3, cancellation, "
-        "controller onNote, controller/bend onTime with 1..3 segments and explicit Frequency, v.onTime, x.Random). "
+        "SEQUENCES of reservations on one track (onCycle then onNote, onNote then onCycle, two lists in a row, a plain command in between, run past the end of each list), controller onNote, controller/bend onTime with 1..3 segments and explicit Frequency, v.onTime, x.Random). "
         "non-trivial = distinct case with a non-empty reservation and at least 2 notes / 2 events")
 TRUSTED = ["Coq Floats.SpecFloat (binary32 parameters) as the meaning of Rust f32; tied by the f32ops correspondence",
            "isize is 64 bit; 64-bit overflow of index/time arithmetic is not modelled"]
@@ -503,6 +503,169 @@ def case_cc_on_note(rng):
     return Case(src, "cc_on_note", check, nontrivial=(n >= 2))
 
 
+def distinct_list(rng, k, lo, hi):
+    """k values, neighbours (cyclically) different, so that 'stops' and 'repeats' are distinguishable"""
+    out = []
+    while len(out) < k:
+        v = rng.randint(lo, hi)
+        if out and v == out[-1]:
+            continue
+        if len(out) == k - 1 and k > 1 and v == out[0]:
+            continue
+        out.append(v)
+    return out
+
+
+def case_sequence(rng):
+    """several reservations in a row on one track: a later reservation replaces the earlier one, onNote stops after
+    its last value, onCycle repeats, a plain command cancels. Expectations by a reference interpreter of the property
+    text. Where the property is silent (which value a note takes after an onNote list of v/q/t/o is used up: the value
+    before the reservation, or the last applied one as the code stores it) both readings are accepted, consistently
+    for the whole source; for l the note length falls back to the current `l` length."""
+    w = rng.choice("vqtol")
+    pools = {"v": (1, 127), "q": (10, 100), "t": (0, 40), "o": (2, 8), "l": (5, 200)}
+    lo, hi = pools[w]
+    phases = []
+    shape = rng.choice(["cycle-note", "note-cycle", "note-note", "cycle-plain-note", "note-plain-cycle", "cycle-cycle", "random"])
+    kinds = shape.split("-") if shape != "random" else [rng.choice(["cycle", "note", "plain"]) for _ in range(rng.randint(2, 4))]
+    src = ["r "]
+    plan = []          # ("res", vs, cyc) | ("plain", value, text) | ("note", letter|None, key)
+    for kd in kinds:
+        if kd == "plain":
+            if w == "l":
+                n = rng.choice(list(LTICKS))
+                plan.append(("plain", LTICKS[n]))
+                src.append("l%d " % n)
+            else:
+                v = rng.randint(lo, hi)
+                plan.append(("plain", v))
+                src.append("%s%d " % (w, v))
+        else:
+            vs = distinct_list(rng, rng.choice([1, 2, 2, 3, 4]), lo, hi)
+            cyc = kd == "cycle"
+            plan.append(("res", vs, cyc))
+            src.append("%s.%s(%s) " % (w, rng.choice(["onCycle", "C"]) if cyc else rng.choice(["onNote", "N"]), ",".join(map(str, vs))))
+        # enough notes to run past the end of the list (sometimes fewer)
+        k = len(plan[-1][1]) if plan[-1][0] == "res" else 1
+        nn = rng.choice([k + 1, k + 2, k + 3, 2 * k + 1, k, max(1, k - 1)])
+        txt, info = gen_notes(rng, nn, allow_n=(w != "o"))
+        src.append(txt + " ")
+        plan += [("note", letter, key) for letter, key in info]
+    source = track_prefix(rng) + "".join(src)
+    n_notes = sum(1 for x in plan if x[0] == "note")
+
+    def expected(store):
+        """per note: (value or None when nothing is asserted, length in ticks)"""
+        cur = {"v": V0, "q": Q0, "t": 0, "o": O0, "l": TB}[w]
+        res = None
+        out = []
+        for x in plan:
+            if x[0] == "plain":
+                cur, res = x[1], None
+            elif x[0] == "res":
+                res = [x[1], x[2], 0]
+            else:
+                val = cur
+                if res is not None:
+                    vs, cyc, idx = res
+                    if cyc or idx < len(vs):
+                        val = vs[idx % len(vs)]
+                        res[2] += 1
+                        if store and w != "l":
+                            cur = val
+                    else:
+                        res = None
+                out.append(val)
+        return out
+
+    def observe(ns):
+        obs, pos = [], TB
+        for (st, key, vel, dur, ch), x in zip(ns, [x for x in plan if x[0] == "note"]):
+            if w == "v":
+                obs.append(vel)
+            elif w == "q":
+                obs.append(dur)
+            elif w == "t":
+                obs.append(st - pos)
+            elif w == "o":
+                obs.append((key - PITCH[x[1]]) // 12 if (key - PITCH[x[1]]) % 12 == 0 else ("key", key))
+            else:
+                obs.append((st, dur))
+            pos += TB
+        return obs
+
+    def render(exp):
+        if w == "q":
+            return [gate(TB, v) for v in exp]
+        if w == "l":
+            out, pos = [], TB
+            for v in exp:
+                out.append((pos, gate(v, Q0)))
+                pos += v
+            return out
+        return exp
+
+    def check(dec):
+        tr = note_track(dec)
+        if tr is None:
+            return [("notes are not on exactly one track", "", "")]
+        ns = notes_of(tr)
+        if len(ns) != n_notes:
+            return [("number of notes", len(ns), n_notes)]
+        obs = observe(ns)
+        wants = [render(expected(False))] + ([render(expected(True))] if w != "l" else [])
+        if obs in wants:
+            return []
+        want = wants[-1]
+        i = next((i for i, (a, b) in enumerate(zip(obs, want)) if a != b), 0)
+        return [("%s of note %d in a sequence of reservations (a later reservation replaces the earlier one, onNote stops "
+                 "after its last value, onCycle repeats, the plain command cancels)" %
+                 ({"v": "velocity", "q": "gate", "t": "timing", "o": "octave", "l": "(start, gate)"}[w], i), obs, want)]
+    return Case(source, "sequence_" + w, check)
+
+
+def case_cc_sequence(rng):
+    """controller onNote lists in a row: a later list for the same controller replaces the pending one, lists of other
+    controllers are independent, every list stops after its last value"""
+    nos = rng.sample([1, 7, 10, 11, 74, 91], 2)
+    plan, src = [], []
+    for _ in range(rng.randint(2, 4)):
+        no = nos[0] if rng.random() < 0.7 else nos[1]
+        vs = distinct_list(rng, rng.randint(1, 4), 0, 127)
+        plan.append(("res", no, vs))
+        src.append("y%d.%s(%s) " % (no, rng.choice(["onNote", "N"]), ",".join(map(str, vs))))
+        nn = rng.choice([len(vs) + 1, len(vs) + 2, len(vs), max(1, len(vs) - 1), 1])
+        txt, info = gen_notes(rng, nn)
+        src.append(txt + " ")
+        plan += [("note",)] * nn
+    source = track_prefix(rng) + "".join(src)
+    n_notes = sum(1 for x in plan if x[0] == "note")
+
+    def check(dec):
+        tr = note_track(dec)
+        if tr is None:
+            return [("notes are not on exactly one track", "", "")]
+        ns = notes_of(tr)
+        if len(ns) != n_notes:
+            return [("number of notes", len(ns), n_notes)]
+        pending, want, i = {}, {no: [] for no in nos}, 0
+        for x in plan:
+            if x[0] == "res":
+                pending[x[1]] = list(x[2])
+            else:
+                for no in nos:
+                    if pending.get(no):
+                        want[no].append((ns[i][0], pending[no].pop(0)))
+                i += 1
+        fails = []
+        for no in nos:
+            got = ccs_of(tr, no)
+            if got != want[no]:
+                fails.append(("controller %d onNote lists in a row: events (tick, value)" % no, got, want[no]))
+        return fails
+    return Case(source, "sequence_cc", check)
+
+
 def exact(lo, hi, j, ln):
     return lo + (hi - lo) * j / ln
 
@@ -667,7 +830,7 @@ def case_random(rng):
     return Case(src, "random_" + w, check, nontrivial=(n >= 2))
 
 
-GENS = [(case_on_note, 30), (case_cancel, 10), (case_other_track, 4), (case_cc_on_note, 10), (case_cc_on_time, 12),
+GENS = [(case_on_note, 30), (case_sequence, 25), (case_cc_sequence, 6), (case_cancel, 10), (case_other_track, 4), (case_cc_on_note, 10), (case_cc_on_time, 12),
         (case_pb_on_time, 10), (case_v_on_time, 10), (case_random, 12)]
 
 FIXED = [  # the sources named in the property's description, with explicit expectations
@@ -692,6 +855,9 @@ FIXED = [  # the sources named in the property's description, with explicit expe
     {"src": "l.onNote(48,24) c l8 d e", "start": [0, 48, 96], "dur": [43, 43, 43]},
     {"src": "o.onNote(4,6) c o3 c c", "key": [48, 36, 36]},
     {"src": "r t.onCycle(3,6) c t0 d e", "start": [99, 192, 288]},
+    {"src": "v.onCycle(10,20) c d e v.onNote(30,40) c d e f", "vel": [10, 20, 10, 30, 40, 40, 40]},
+    {"src": "q.onNote(50,60) c q.onCycle(100,30) c d e", "dur": [48, 96, 28, 96]},
+    {"src": "y7.onNote(1,2,3) c y7.onNote(9,8) c d e", "cc": [7, [[0, 1], [96, 9], [192, 8]]]},
 ]
 
 
